@@ -331,4 +331,54 @@ example : Yang.canonUnion {} exM exUn [0x30, 0x35] = [0x35] := by rfl
 example : Yang.canonUnion {} exM exUn [0x6f, 0x6e, 0x65] = [0x6f, 0x6e, 0x65] := by rfl
 example : Yang.canonMem {} exM (.enm [[0x6f, 0x6e, 0x65]]) [0x20, 0x6f, 0x6e, 0x65] = none := by rfl
 
+/-! ## `bit-is-set`: first-node rule, `false` for everything that is not a set bit of a bits terminal -/
+section
+variable {N : Type} [XNum N]
+
+/-- the first-node rule of `bit-is-set` (RFC 7950 §10.6.2 "the first node in document order"): the nodes after the first one of the
+node-set never matter, whatever they are -/
+theorem bit_is_set_first_node (env : Env) (cx : Cx) (x : Ref) (rest rest' : List Ref) (b : Value N) :
+    callFn env cx "bit-is-set" [.ns (x :: rest), b] = callFn env cx "bit-is-set" [.ns (x :: rest'), b] := by
+  rw [callFn_bit_is_set, callFn_bit_is_set]; rfl
+
+/-- every input whose first node is not a `bits` terminal — the empty set, a text node or the root, an inner node, a terminal whose
+value type (the dump's `realtype`: the target type for a leafref, the UNION type for a union even when the value is a bits member) is not
+`bits` — gives `false`, never an error -/
+theorem bit_is_set_not_bits (env : Env) (cx : Cx) (l : List Ref) (b : Value N)
+    (h : ∀ x rest e, l = x :: rest → env.doc.elem? x = some e → e.term = true → e.btype ≠ "bits".toUTF8.toList) :
+    callFn env cx "bit-is-set" [.ns l, b] = .ok (.bool false) := by
+  obtain ⟨r, hr, hiff⟩ := bit_is_set_spec env cx l b
+  rw [hr]
+  cases r with
+  | false => rfl
+  | true =>
+    obtain ⟨x, rest, e, hl, he, ht, hb, _⟩ := hiff.mp rfl
+    exact absurd hb (h x rest e hl he ht)
+
+/-- the second argument is converted with `string()`; a name that is not ONE word of the value (the empty string, two names, a name
+with white space) is never set -/
+theorem bit_is_set_one_word (env : Env) (cx : Cx) (l : List Ref) (b : Value N)
+    (h : ∀ x rest e, l = x :: rest → env.doc.elem? x = some e → b.toStr env ∉ Str.words e.value) :
+    callFn env cx "bit-is-set" [.ns l, b] = .ok (.bool false) := by
+  obtain ⟨r, hr, hiff⟩ := bit_is_set_spec env cx l b
+  rw [hr]
+  cases r with
+  | false => rfl
+  | true =>
+    obtain ⟨x, rest, e, hl, he, _, _, hw⟩ := hiff.mp rfl
+    exact absurd hw (h x rest e hl he)
+end
+
+/-! non-vacuity: element 1 of `exEnvI` (the list entry `<l>`, an inner node) as the first node; `bit-is-set((/b | …), 'x z')` on the bits node -/
+example : ∀ x rest e, [2, 12] = x :: rest → exEnvI.doc.elem? x = some e → e.term = true → e.btype ≠ "bits".toUTF8.toList := by
+  intro x rest e hl he ht
+  cases hl
+  have h2 : exEnvI.doc.elem? 2 = some ⟨0, exM, [0x6c], false, [], []⟩ := by rfl
+  rw [h2] at he; cases he; cases ht
+example : ∀ x rest e, [4] = x :: rest → exEnvE.doc.elem? x = some e → [0x78, 0x20, 0x7a] ∉ Str.words e.value := by
+  intro x rest e hl he
+  cases hl
+  have h2 : exEnvE.doc.elem? 4 = some ⟨0, exM, [0x62], true, [0x78, 0x20, 0x7a], "bits".toUTF8.toList⟩ := by rfl
+  rw [h2] at he; cases he; decide
+
 end LyModel.Props.C08Yang
